@@ -191,6 +191,105 @@ func c17Directed() []c17script {
 			"own 1 => 0", "own 3 => -",
 			"bob 1 => -",
 		),
+		// ---- governance paths and the RollApp ownership transfer (worker agent-c17x) ----
+		sc("chain-id-migration-keeps-indexes-and-resolution", 0,
+			"reg 0 0 1 "+A(9)+" 0 => ok",
+			"reg 1 1 1 "+A(8)+" 0 => ok",
+			"ura 0 0 100 0 1 100:1 => ok", // sa.n0@cosmoshub-4 -> a1 (cosmos prefix)
+			"ura 0 0 0 1 0 0:2 => ok",     // n0 default record -> a2
+			"ura 1 1 100 0 0 100:3 => ok", // n1@cosmoshub-4 -> a3
+			"ura 1 1 102 0 0 100:2 => ok", // n1@injective-1 -> a2: would collide with the record above
+			"mig - => invalid",
+			"mig 100>102,102>103 => invalid", // a chain-id on both sides
+			"mig 100>102 => ok",              // n0 rewritten, n1 skipped (two records for injective-1|"")
+			"res 1 0 c102 => 100:1", "res 1 0 c100 => -",
+			"rev 100:1 102 => 1.0@l1001", "rev 100:1 100 => -", // the params record of cosmoshub-4 (alias cosmos) moved to injective-1 too
+			"res 0 1 c100 => 100:3", "res 0 1 c102 => 100:2",
+			"rev 100:3 100 => 0.1@c100",
+			"mig 100>103 => ok", // n1's cosmoshub-4 record moves to juno-1 (no params record left to move)
+			"res 0 1 l1001 => 100:2", "res 0 1 c103 => 100:3",
+			"rev 100:3 103 => 0.1@c103",
+			adv(c17Year+1), // both names expired: the migration does not load them
+			"mig 103>101 => ok",
+			"reg 0 0 1 "+A(1)+" 0 => ok",
+		),
+		sc("chain-id-migration-onto-the-host-chain-id", 0,
+			"reg 0 0 1 "+A(9)+" 0 => ok",
+			"ura 0 0 100 0 0 100:1 => ok", // n0@cosmoshub-4 -> a1
+			"ura 0 0 100 0 1 100:2 => ok", // sa.n0@cosmoshub-4 -> a2
+			"mig 100>0 => ok",             // stored as the literal host chain-id (model: chain 999)
+			"res 0 0 c0 => 0:0",           // forward: the owner (fallback), not the stored record
+			"res 1 0 c0 => -",
+			"rev 100:1 0", // lists n0@dym (known finding)
+			"rev 100:2 0",
+			"ura 0 0 0 0 0 - => notfound", // the literal record cannot be deleted through its chain-id either
+			"ura 0 0 0 1 0 0:3 => ok",     // a host record for the same path next to it: two records for the host chain, empty path
+			"res 0 0 c0 => 0:3",
+			"mig 0>103 => ok", // host chain-id as the previous id: only the literal records move
+			"res 0 0 c103 => 100:1", "res 1 0 c103 => 100:2", "res 0 0 c0 => 0:3",
+			"rev 100:1 103 => 0.0@l1000", // the params record of the host chain-id (alias dym) moved to juno-1 as well
+		),
+		sc("update-aliases-proposal", 0,
+			"rollapp 0 1 1 0 => ok",
+			"ualias - - => invalid",
+			"ualias 100:1001 - => exists",
+			"ualias - 102:1002 => notfound",
+			"ualias - 100:1000 => notfound",
+			"ualias 102:1000 - => invalid", // alias of another chain-id: SetParams refuses
+			"ualias 102:1002,100:1003 0:1000 => ok",
+			"res 0 0 l1002", "res 0 0 l1000",
+			"reg 0 0 1 "+A(9)+" 0 => ok",
+			"res 0 0 l1000 => -", "res 0 0 c0 => 0:0",
+			"rev 0:0 0 => 0.0@c0",
+			"ualias 0:1000,1:1 100:1001 => ok", // cosmos is listed second (sorted): juno keeps the default alias
+			"rev 0:0 0 => 0.0@l1000",
+			"ualias 1:0 - => ok", // the RollApp's own alias becomes a params alias of the same chain-id
+			"sell 0 l 0 "+A(2)+" 0 => denied",
+		),
+		sc("rollapp-transfer-with-open-alias-orders", 0,
+			"rollapp 0 1 1 0 => ok",
+			"rollapp 1 2 2 1 => ok",
+			"alias 0 1 2 "+A(6)+" => ok",
+			"sell 0 l 0 "+A(2)+" 0 => ok",
+			"buy 1 l 0 "+A(3)+" 2 => ok",
+			"sell 0 l 2 "+A(2)+" 0 => ok", // bidless
+			"offer 1 l 2 "+A(4)+" - 2 => ok",
+			"xferra 1 1 3 => denied",
+			"xferra 0 1 0 => invalid",
+			"xferra 0 3 1 => notfound",
+			"xferra 0 1 3 => ok", // a3 owns rollapp c1 now, with l0 (order + bid of a1) and l2 (bidless order, offer)
+			"csell 0 l 0 => denied",
+			"csell 3 l 0 => precond",
+			"csell 0 l 2 => denied",
+			"abo 0 201 "+A(4)+" => denied",
+			adv(c17SoDur+1),
+			"comp 0 l 0 => denied", // the account that placed the order is neither owner nor bidder any more
+			"comp 3 l 0 => ok",     // the new owner completes: a3 is paid the bid, l0 moves to c2
+			"csell 3 l 2 => ok",
+			"abo 3 201 "+A(4)+" => ok", // the new owner accepts the offer made before the transfer: a3 is paid
+			"sell 3 l 2 "+A(1)+" 0 => denied",
+		),
+		sc("params-change-with-open-bids", 0,
+			"reg 0 0 2 "+A(10)+" 0 => ok",
+			"sell 0 n 0 "+A(2)+" 0 => ok",
+			"buy 1 n 0 "+A(4)+" => ok",
+			"offer 2 n 0 "+A(1)+" - => ok",
+			fmt.Sprintf("setp %d %d %s 10 => ok", 45*86400, 3600, A(2)), // +10 %, min offer 2, orders last one hour
+			"buy 2 n 0 "+new(big.Int).Add(amt(4, 0), big.NewInt(1)).String()+" => invalid",
+			"buy 2 n 0 "+new(big.Int).Add(amt(4, 0), new(big.Int).Div(amt(4, 0), big.NewInt(10))).String()+" => ok", // exactly +10 %: a1 refunded
+			"offer 3 n 0 "+A(1)+" - => invalid", // below the new minimum
+			"offer 2 n 0 "+A(2)+" 101 => ok",    // raising the old offer: deposits the difference
+			fmt.Sprintf("setp %d %d %s 0 => invalid", 30*86400-1, 3600, A(2)),
+			fmt.Sprintf("setp %d %d %s 0 => invalid", 30*86400, 7*86400+1, A(2)),
+			fmt.Sprintf("setp %d %d %s 11 => invalid", 30*86400, 3600, A(2)),
+			adv(3601),
+			"comp 2 n 0 => precond", // the open order keeps the expiry it was placed with
+			adv(c17SoDur),
+			"comp 2 n 0 => ok",
+			"own 2 => 0",
+			"sell 2 n 0 "+A(2)+" 0 => ok",
+			"v",
+		),
 	}
 }
 
